@@ -50,6 +50,7 @@ def check(ctx):
     ctx.rule("R-C08.2", "emission completeness and grouping in the generator (visitor coverage, field use, parenthesisation, precedence agreement)")
     ctx.rule("R-C08.3", "alternatives that store unwrapped results in the same slot return disjoint classes")
     ctx.rule("R-C08.5", "declaration and statement wiring: every declarator's own name, bit-field width, initialiser and derivations end up in its own declaration; every statement ends up once, in source order, under its construct (reviewed def-use reference, append linearity of the switch regrouping)")
+    ctx.rule("R-C08.6", "joining adjacent string literals cannot change what they denote (an escape sequence ending one piece is not extended by the next piece)")
     ctx.rule("R-C08.4", "a node built once is attached to one parent")
     px = S.module("c_parser")
     toksites = e1.token_sites()
@@ -97,6 +98,9 @@ def check(ctx):
     from . import share
     share.borrow(ctx, "C03", ("R-C03.1",), "R-C08.5", count=60)
     share.borrow(ctx, "C05", ("R-C05.1", "R-C05.2"), "R-C08.5", count=40)      # statements: none is lost, duplicated or moved by the builders and the switch regrouping
+    # ---- R-C08.6: adjacent string literals keep their meaning when joined -------------------------------------------------------
+    from . import c02
+    c02.escape_merge(ctx, "R-C08.6", px)
     # ---- R-C08.3 -------------------------------------------------------------------
     cur = WC.current()
     classes = {}
